@@ -61,19 +61,95 @@ def arity_programs():
 
 def bounds(tier):
     return {'atoms': len(universe.atoms()), 'positions': POSITIONS, 'arity_programs': len(arity_programs()), 'call_styles': ['positional', 'keyword', 'mixed'],
-            'special': ['generator result', 'Ignored', 'Fault', 'non-Fault exception'], 'wire_paths': ['XmlDocument', 'Soap11', 'JsonDocument']}
+            'special': ['generator result', 'Ignored', 'Fault', 'non-Fault exception'],
+            'header_histories': {'alphabet': HDR_OPS, 'depth': 5 if tier == 'thorough' else 4}, 'wire_paths': ['XmlDocument', 'Soap11', 'JsonDocument']}
 
 
 def shards(tier):
     out = []
     for aid, at in universe.atoms(tier):
+        if aid in universe.XML_ONLY_ATOMS:
+            continue
         for pos in POSITIONS:
             if universe.program_for(at, pos) is None:
                 continue
             out.append({'kind': 'A', 'atom': aid, 'pos': pos, 'tier': tier})
     out.append({'kind': 'arity', 'tier': tier})
     out.append({'kind': 'special', 'tier': tier})
+    for first in range(len(HDR_OPS)):
+        out.append({'kind': 'hdr', 'tier': tier, 'first': first, 'depth': 5 if tier == 'thorough' else 4})
     return out
+
+
+# header histories on ONE NullServer: the in-header is state of the server object (set_options(soapheaders=...))
+HDR_VALUES = {'A': ('H', {'hx': 1, 's': 'alice'}), 'B': ('H', {'hx': 2, 's': 'bob'}), 'none': None}
+HDR_OPS = ['set:A', 'set:B', 'set:none', 'call:h1', 'call:h2']
+
+
+def hdr_program():
+    return {'tns': TNS, 'classes': [{'n': 'H', 'fields': [['hx', I], ['s', U]]}],
+            'services': [{'n': 'S', 'methods': [{'n': 'h1', 'args': [['n', I]], 'ret': U, 'in_header': ['H']},
+                                                {'n': 'h2', 'args': [['n', I]], 'ret': U, 'in_header': ['H']}]}]}
+
+
+def _hdr_fn(ctx, n):
+    h = ctx.in_header
+    if isinstance(h, (list, tuple)):
+        h = h[0] if h else None
+    return 'no-header' if h is None else '%s/%s/%s' % (h.hx, h.s, n)
+
+
+def run_hdr(shard, res, only=None):
+    """every history of {set header A / B / none, call h1, call h2} up to the depth on one NullServer; oracle: each call
+    returns what the same call with the header current at that moment returns over the wire (Soap11, fresh request)"""
+    q = Quad(hdr_program())
+    b = q.b
+    res['cov']['programs'] += 1
+    proto, h = [(p, x) for p, x in q.wires if p == 'soap11'][0]
+    script = ('call', _hdr_fn)
+    wire = {}
+    for mname in ('h1', 'h2'):
+        for hk, hv in HDR_VALUES.items():
+            hdr = None if hv is None else {'H': Obj(hv[0], **hv[1])}
+            req = xsdcodec.build_request(h.codec, b.methods[mname], [7], proto, header=hdr)
+            o = h.call_raw(mname, req, script=script)
+            kind, val, _ = xsdcodec.parse_response(h.codec, b.methods[mname], o.out, proto)
+            wire[(mname, hk)] = (kind, val)
+    import itertools
+    from spyne.server.null import NullServer
+    for rest in itertools.product(range(len(HDR_OPS)), repeat=shard['depth'] - 1):
+        hist = [HDR_OPS[shard['first']]] + [HDR_OPS[i] for i in rest]
+        key = ['hdr', hist]
+        if only is not None and only != key:
+            continue
+        null = NullServer(q.napp, ostr=False)
+        cur = 'none'
+        res['evaluations'] += 1
+        seen_calls = 0
+        for step, op in enumerate(hist):
+            kind, arg = op.split(':')
+            if kind == 'set':
+                hv = HDR_VALUES[arg]
+                null.set_options(soapheaders=None if hv is None else spec.to_native(b, ['c', 'H', {}], Obj(hv[0], **hv[1])))
+                cur = arg
+                continue
+            b.rec.reset()
+            b.rec.script[arg] = script
+            try:
+                r = getattr(null.service, arg)(7)
+                got = ('ok', r)
+            except Exception as e:
+                got = ('raised', repr(e))
+            seen_calls += 1
+            if got != wire[(arg, cur)]:
+                res['violations'].append({'sig': 'C18|header-history|%s' % ('first-call' if seen_calls == 1 else 'later-call'),
+                                          'what': 'history %s on one NullServer: step %d (%s with header %s) gives %r, the wire gives %r' % (
+                                              hist, step, op, cur, got, wire[(arg, cur)]),
+                                          'case': {'shard': shard, 'only': key}, 'count': 1})
+                break
+        if seen_calls >= 2:
+            res['nontrivial'] += 1
+    res['cov']['header_histories'] = res['evaluations']
 
 
 class Quad(object):
@@ -285,6 +361,8 @@ def run_shard(shard, only=None):
             q = Quad(program)
             res['cov']['programs'] += 1
             one_case(q, 'm', argv, retv, res, 'arity|' + name, {'shard': shard, 'only': key})
+    elif shard['kind'] == 'hdr':
+        run_hdr(shard, res, only)
     else:
         from spyne.model.fault import Fault
         from spyne import Ignored
